@@ -9,7 +9,7 @@ PROPERTY = dict(
     assumptions=['tasks already computing do report completion (premise of the property)'],
 )
 OBLIGATIONS = [
-    dict(ENG, name='P1.demandRule-protocol', harness='engine/h_demand.cpp', entry='harness_demand', noinline=['BuildEngineImpl10demandRule'], expect_functions=['BuildEngineImpl10demandRule'], unwind=6, params_quick=[{}]),
+    dict(ENG, name='P1.demandRule-protocol', harness='engine/h_demand.cpp', entry='harness_demand', noinline=['BuildEngineImpl10demandRule'], stubs=['BuildEngineImpl17getRuleInfoForKeyERKN7llbuild4core7KeyTypeE$=stub_getRuleInfoForKeyType'], expect_functions=['BuildEngineImpl10demandRule'], unwind=6, params_quick=[{}]),
     dict(ENG, name='P1.pass-protocol', harness='engine/h_exec.cpp', entry='harness_exec', noinline=['BuildEngineImpl12executeTasks', 'BuildEngineImpl14taskIsComplete'],
          expect_functions=['BuildEngineImpl12executeTasks', 'BuildEngineImpl14taskIsComplete'], stubs=EXEC_STUBS, unwind=4, params_quick=[{'VF_INJECT_AT': -1}, {'VF_INJECT_AT': -1, 'VF_READY_ONLY': 1}], timeout=600),
     dict(ENG, name='P3.lost-wakeup', harness='engine/h_exec.cpp', entry='harness_exec', noinline=['BuildEngineImpl12executeTasks', 'BuildEngineImpl14taskIsComplete'],
